@@ -214,13 +214,18 @@ class World(Sim):
                          sent_groups=0, sent_jobs=0, committed=False, token=tok)
                 # resolve group parents
                 for k, pref in enumerate(groups):
-                    if pref < 0 and k > 0:
+                    if not isinstance(pref, str) and pref < 0 and k > 0:
                         u['groups'].append(('in', 1 + ((-pref - 1) % k)))
+                    elif isinstance(pref, str):
+                        # 'L<k>': the k-th most recently reserved group of the batch
+                        u['groups'].append(('abs', existing_groups[-min(int(pref[1:]), len(existing_groups))]))
                     else:
                         u['groups'].append(('abs', existing_groups[abs(pref) % len(existing_groups)]))
                 for k, j in enumerate(jobs):
                     g = j.get('g', 0)
-                    if g < 0 and groups:
+                    if isinstance(g, str):
+                        gref = ('abs', existing_groups[-min(int(g[1:]), len(existing_groups))])
+                    elif g < 0 and groups:
                         gref = ('in', 1 + ((-g - 1) % len(groups)))
                     else:
                         gref = ('abs', existing_groups[abs(g) % len(existing_groups)])
